@@ -220,23 +220,17 @@ impl<'a> Tokinizer<'a> {
             return;
         }
         
+        /* The expression starts behind the assignment operator. Operands in front of a parenthesis
+           need their implicit operators too ('1+2*(3)'), so a parenthesis does not move the start. */
         for (token_index, token) in self.tokens.iter().enumerate() {
-            match token.deref() {
-                TokenType::Operator('=') | 
-                TokenType::Operator('(')=> {
-                    index = token_index as usize + 1;
-                    break;
-                },
-                _ => ()
-            };
+            if let TokenType::Operator('=') = token.deref() {
+                index = token_index as usize + 1;
+                break;
+            }
         }
 
         if index + 1 >= self.tokens.len() {
             return;
-        }
-
-        if let TokenType::Operator('(') = self.tokens[index].deref() {
-            index += 1;
         }
 
         let mut operator_required = false;
